@@ -6,7 +6,8 @@ From Gst Require Import lib.QAux lib.LinAlgQ C01.Model C02.Kriging.
 From Gst Require C01.Properties C06.Model C06.Spec C06.Knn C06.Proofs_moving C06.Properties.
 From Gst Require Import C04.Algebra C04.Model C04.Proofs_covmat C04.Proofs_krige.
 From Gst Require C04.Neigh C04.Proofs_neigh C04.Proofs_ball.
-From Gst Require Import C04.Proofs_migrate.
+From Gst Require Import C04.Proofs_migrate C04.Proofs_extra.
+From Gst Require C06.Proofs_ball C04.Proofs_ball2.
 Import ListNotations.
 Local Open Scope Q_scope.
 
@@ -61,6 +62,53 @@ Theorem C04_counters : forall A (f : nat -> nat -> nat -> A) vars index cnt,
    (cnt + length (flat vars index))%nat).
 Proof. exact @loop_var_spec. Qed.
 Print Assumptions C04_counters.
+
+(* evalCovMatrixSparse (its own row / column counters, threshold eps * C_ij(0)): the triplet at (i, j) is the value of the plain
+   matrix when it passes the threshold, and there is none otherwise; with eps = 0 the sparse matrix IS the plain one *)
+Theorem C04_covmat_sparse : forall (cor : nat -> Q -> Q) ndim structs eps c0 db1 db2 ivars jvars index1 index2 i j,
+  let rows := flat ivars index1 in let cols := flat jvars index2 in
+  (i < length rows)%nat -> (j < length cols)%nat ->
+  let v := cov_plain cor ndim structs (coords_at db1 (snd (nth i rows (0, 0)%nat))) (coords_at db2 (snd (nth j cols (0, 0)%nat)))
+                     (fst (nth i rows (0, 0)%nat)) (fst (nth j cols (0, 0)%nat)) in
+  matches (sparse_updates cor ndim structs eps c0 db1 db2 ivars jvars index1 index2) i j =
+  if sparse_keep eps c0 (fst (nth i rows (0, 0)%nat)) (fst (nth j cols (0, 0)%nat)) v then [v] else [].
+Proof. exact sparse_matches. Qed.
+Print Assumptions C04_covmat_sparse.
+
+Theorem C04_covmat_sparse_eps0 : forall (cor : nat -> Q -> Q) ndim structs eps c0 db1 db2 ivars jvars index1 index2 i j,
+  eps == 0 -> (i < length (flat ivars index1))%nat -> (j < length (flat jvars index2))%nat ->
+  read_set (sparse_updates cor ndim structs eps c0 db1 db2 ivars jvars index1 index2) i j =
+  read_set (plain_updates cor ndim structs false db1 db2 ivars jvars index1 index2) i j.
+Proof. exact sparse_eq_plain. Qed.
+Print Assumptions C04_covmat_sparse_eps0.
+
+(* the covariance KrigingSystem reads through the pre-projected points (default) is the covariance of the raw points
+   (CovAniso::setOptimEnabled(false)): same oracle values, hence the same kriging system (C01) *)
+Theorem C04_kriging_optim : forall (cor : nat -> Q -> Q) ndim structs p1 p2 ivar jvar,
+  (forall s a b, a == b -> cor s a == cor s b) ->
+  cov_projected cor ndim structs p1 p2 ivar jvar == cov_plain cor ndim structs p1 p2 ivar jvar.
+Proof. exact cov_projected_eq. Qed.
+Print Assumptions C04_kriging_optim.
+
+(* active-rank lists: hoisting the variable-independent tests (selection, coordinates) out of the loop on the variables is sound
+   when the per-variable tests run on the EXPLICIT candidate list; handing the candidates back to getRanksActive is not
+   (an empty list means "all samples" there): see C04_ranks_hoisted_naive_refuted *)
+Theorem C04_ranks_hoisted : forall cdef db ivars nbgh us uv uc,
+  multiple_ranks_hoisted cdef db ivars nbgh us uv uc = multiple_ranks_c cdef db ivars nbgh us uv uc.
+Proof. exact ranks_hoisted_eq. Qed.
+Print Assumptions C04_ranks_hoisted.
+
+Theorem C04_ranks_nocoord : forall cdef db nbgh item us uv,
+  ranks_active_c cdef db nbgh item us uv false = ranks_active db nbgh item us uv.
+Proof. exact ranks_active_c_nocoord. Qed.
+Print Assumptions C04_ranks_nocoord.
+
+Definition ex_masked : cdb := {| d_coords := [[0]; [1]; [2]]; d_sel := [false; false; false]; d_z := [[Some 1; None; Some 3]]; d_verr := [] |}.
+Theorem C04_ranks_hoisted_naive_refuted :
+  exists cdef db ivars nbgh us uv uc,
+    multiple_ranks_hoisted_naive cdef db ivars nbgh us uv uc <> multiple_ranks_c cdef db ivars nbgh us uv uc.
+Proof. exists [], ex_masked, [0%nat], [], true, false, false. vm_compute. discriminate. Qed.
+Print Assumptions C04_ranks_hoisted_naive_refuted.
 
 (* ============================================================================================ pair 2 *)
 (* one sector, no extra checker, every sample within the radius, nmaxi >= number of samples (or no limit), nmini satisfied:
@@ -185,6 +233,22 @@ Theorem C04_ball_eligibles : forall dist nfeat (data : list C06.Knn.pt) (okp : C
 Proof. exact C04.Proofs_ball.knn_eligibles. Qed.
 Print Assumptions C04_ball_eligibles.
 
+(* the code as committed (guarded shortcut, C06 model moving_fixed_x): whatever the configuration -- masks, undefined values,
+   cross-validation, sectors, checkers, rotation, anisotropy, any nmini / nmaxi -- setBallSearch(true) selects what
+   setBallSearch(false) selects, provided the eligible list, WHEN the shortcut is taken, is what the tree delivers without tie
+   (C06_ball_shortcut for the shortcut, C06_ball_fallback for every other case) *)
+Theorem C04_ball_search_eq : forall oracle useball p t (xs : list C06.Model.xsample) (ell : list nat),
+  (1 <= C06.Model.p_nsect p)%nat ->
+  (C06.Model.ball_taken useball p xs ell = true ->
+     NoDup ell /\ length ell = Z.to_nat (C06.Model.p_nmaxi p) /\ (forall i, In i ell -> (i < length xs)%nat) /\
+     (forall i j, In i ell -> (j < length xs)%nat -> ~ In j ell ->
+        C06.Model.dist2 p t (C06.Model.x_total (nth i xs C06.Model.dummy_xsample)) <
+        C06.Model.dist2 p t (C06.Model.x_total (nth j xs C06.Model.dummy_xsample)))) ->
+  C06.Model.r_ranks (C06.Model.moving_fixed_x oracle useball p t xs ell) =
+  C06.Model.r_ranks (C06.Model.moving_fixed_x oracle false p t xs []).
+Proof. exact C04.Proofs_ball2.ball_search_eq. Qed.
+Print Assumptions C04_ball_search_eq.
+
 (* the degenerate case where the eligible list is the whole data set needs none of these premises but "nothing masked" *)
 Theorem C04_ball_moving_all : forall oracle p t samples,
   (forall s, In s samples -> C06.Model.s_active s = true) ->
@@ -203,6 +267,12 @@ Theorem C04_block1_eq_point : forall k cb i jv,
   rhs_full (with_crhs k cb) i jv == rhs_full k i jv.
 Proof. exact block1_rhs. Qed.
 Print Assumptions C04_block1_eq_point.
+
+(* per-cell discretisation (flagPerCell, extensions read in the BLEX columns) with extensions equal to the mesh = fixed one *)
+Theorem C04_percell_eq_fixed : forall blex dx, Forall2 Qeq blex dx ->
+  forall ndiscs js, Forall2 Qeq (disc_point blex ndiscs js) (disc_point dx ndiscs js).
+Proof. exact disc_point_percell. Qed.
+Print Assumptions C04_percell_eq_fixed.
 
 (* ============================================================================================ pair 6 *)
 (* collocated option: ANeigh::_updateColCok appends rank -1 and KrigingSystem (_getIdim / _getIvar / _getFext, _lhsCalcul and
@@ -285,6 +355,39 @@ Example C04_covmat_sym_nonvacuous :
   forallb (fun i => forallb (fun j => negb (Nat.leb i j) || qeqb (read_add U i j) (read_set V i j)) (seq 0 4)) (seq 0 4) = true /\
   length V = 10%nat /\ length U = 20%nat.
 Proof. vm_compute. repeat split; reflexivity. Qed.
+
+(* sparse: same data as above, default threshold 1/1000 of C_ij(0) = sum of the sills, and a coarse one that drops cells *)
+Example C04_covmat_sparse_nonvacuous :
+  let ivars := active_vars 2 (-1) in
+  let index1 := multiple_ranks ex_db1 ivars [] true false in
+  let index2 := multiple_ranks ex_db2 ivars [] true false in
+  let c0 := fun u v => get [[5; 1 # 2]; [1 # 2; 5]] u v in
+  let V := plain_updates ex_cor 2 ex_structs false ex_db1 ex_db2 ivars ivars index1 index2 in
+  let S0 := sparse_updates ex_cor 2 ex_structs 0 c0 ex_db1 ex_db2 ivars ivars index1 index2 in
+  let S1 := sparse_updates ex_cor 2 ex_structs (1 # 20) c0 ex_db1 ex_db2 ivars ivars index1 index2 in
+  length S0 = length V /\ (length S1 < length V)%nat /\ (0 < length S1)%nat /\
+  forallb (fun i => forallb (fun j => qeqb (read_set S0 i j) (read_set V i j)) (seq 0 6)) (seq 0 4) = true.
+Proof. vm_compute. repeat split; try reflexivity; lia. Qed.
+
+Example C04_kriging_optim_nonvacuous :
+  qeqb (cov_projected ex_cor 2 ex_structs [0; 0] [3; 1] 0 1) (cov_plain ex_cor 2 ex_structs [0; 0] [3; 1] 0 1) = true /\
+  qeqb (cov_plain ex_cor 2 ex_structs [0; 0] [3; 1] 0 1) (cov_plain ex_cor 2 ex_structs [0; 0] [1; 3] 0 1) = false.
+Proof. vm_compute. split; reflexivity. Qed.
+
+Example C04_ranks_nonvacuous :
+  let db := {| d_coords := [[0]; [1]; [2]; [3]]; d_sel := [true; false; true; true]; d_z := [[Some 1; Some 2; None; Some 4]; [None; Some 1; Some 2; Some 3]];
+               d_verr := [[Some 1; Some 1; Some 1; None]; [Some 1; Some 1; Some 1; Some 1]] |} in
+  multiple_ranks_c [true; true; false; true] db [0; 1]%nat [] true true true = [[0]; [3]]%nat /\
+  multiple_ranks_c [true; true; false; true] db [0; 1]%nat [3; 0; 1]%nat false false false = [[3; 0; 1]; [3; 1]]%nat /\
+  multiple_ranks_hoisted [true; true; false; true] db [0; 1]%nat [] true true true = [[0]; [3]]%nat /\
+  multiple_ranks_c [] ex_masked [0%nat] [] true false false = [[]] /\
+  multiple_ranks_hoisted_naive [] ex_masked [0%nat] [] true false false = [[0; 2]]%nat.
+Proof. vm_compute. repeat split; reflexivity. Qed.
+
+Example C04_percell_nonvacuous :
+  disc_point [2; 1 # 2] [2; 3]%nat [1; 0]%nat = disc_point [2; 1 # 2] [2; 3]%nat [1; 0]%nat /\
+  map Qred (disc_point [2; 1 # 2] [2; 3]%nat [1; 0]%nat) = [1 # 2; -(1 # 6)].
+Proof. vm_compute. split; reflexivity. Qed.
 
 (* pair 2: the data of C06's example, one sector, no checker, wide radius *)
 Definition ex_wide : C06.Model.params :=
